@@ -87,3 +87,19 @@ def c03_read_inside_extern_arg(sig, case):
     """a read that is an argument of an extern call (relu(y[k+1])) is not bounds-checked"""
     d = _diag(sig)
     return sig.get("monitor") == "ir-sanitizer" and sig.get("kind") == "oob" and d.get("inside_extern_arg") and not d.get("through_window_stmt")
+
+
+# ---------------------------------------------------------------- C06
+def c06_add_loop_guard(sig, case):
+    """add_loop(guard=True) builds `for: if: s` with a single wrap: forward(s) lands on the
+    new `if`, cursors below s dangle (a correct fix breaks gemmini_schedules.py, which
+    relies on it)"""
+    if sig.get("op") != "add_loop" or sig.get("monitor") != "forward":
+        return False
+    st = (case.get("steps") or [{}])[-1]
+    guard = False
+    try:
+        guard = bool(st["args"][3]["v"])
+    except Exception:
+        pass
+    return guard and sig.get("kind", "").split(":")[0] in ("wrong_stmt", "expr_raises", "wrong_expr", "raises", "gap_raises", "block_raises", "stmt_to_nonstmt")
